@@ -95,6 +95,7 @@ def _workdir():
         import atexit
         atexit.register(shutil.rmtree, _WORK, True)
         os.mkdir(os.path.join(_WORK, "plain"))
+        os.makedirs(os.path.join(_WORK, "other", "nested"))
     return _WORK
 
 
@@ -121,11 +122,21 @@ def generate(rng, config):
         case["argv"] = flags + ["--seed", sd]
         case["stdin"] = rng.random() < 0.5
         case["random"] = True
+        _gen_process_inputs(rng, case, config)
         return case
     want = True if rng.random() < 0.8 else None
+    files = index = None
+    if rng.random() < 0.3:
+        # input files named relative to the working directory
+        from checks.c18 import make_files
+        files, index = make_files(rng)
+        want = None
     c = cligrammar.command_line(rng, tool, want_random=want, seed=seed,
-                                transforms=True, options=True)
+                                transforms=True, options=True, files=index)
     argv = c["argv"][1:]
+    if files:
+        case["files"] = {k: v["data"] for k, v in files.items()
+                         if k in argv and v["kind"] == "file"}
     # the seed option in every spelling argparse accepts
     for i, a in enumerate(argv[:-1]):
         if a in ("--seed", "-S"):
@@ -144,20 +155,49 @@ def generate(rng, config):
         del argv[i:i + 2]
     case["argv"] = argv
     case["random"] = c["random"]
+    _gen_process_inputs(rng, case, config)
+    return case
+
+
+EPOCHS = [0, 86399, 951782399, 10 ** 9, 2 ** 31 - 1, 4102444800,
+          1790000000]
+TZS = [-12 * 3600, 0, 14 * 3600, 5 * 3600 + 2700]
+SIMCWDS = ["home/alice", "srv/jobs/42", "home/alice/with blank", "x"]
+
+
+def _gen_process_inputs(rng, case, config):
+    """What differs between the two executions of the same command line:
+    the wall clock, the time zone and the working directory (in-process,
+    behind the clock and file-system seams), and the process (fresh
+    interpreters: hash seed, addresses, cwd, environment)."""
+    case["clocks"] = [[rng.choice(EPOCHS + [rng.randrange(2 ** 32)]),
+                       rng.choice(TZS)] for _ in range(2)]
+    case["simcwds"] = rng.sample(SIMCWDS, 2)
     if config == "proc":
         case["hashseeds"] = [str(rng.choice([0, 1, 4242])),
                              str(rng.randrange(1, 2 ** 32))]
         case["cwds"] = rng.sample(["repo", "plain", "verif"], 2)
+        if case.get("files") or case["tool"] == "cnfshuffle":
+            case["cwds"] = rng.sample(["plain", "other/nested"], 2)
         case["env"] = rng.choice([{}, {"TZ": "Asia/Tokyo"},
                                   {"LANG": "C", "COLUMNS": "40"},
                                   {"LC_ALL": "C.UTF-8"}])
-    return case
+        # the two processes may also live in different time zones, far
+        # enough apart to be on different calendar days
+        case["tzs"] = rng.choice([None, None, ["AAA12", "BBB-14"]])
 
 
 # ---------------------------------------------------------------------------
 
-def _run_inproc(case, pre, garbage):
+def _run_inproc(case, pre, garbage, which=0):
     fs = SimFS()
+    clock = None
+    if case.get("clocks"):
+        from detsim.simclock import SimClock
+        clock = SimClock(*case["clocks"][which])
+        fs.cwd = case["simcwds"][which]
+    for name, data in (case.get("files") or {}).items():
+        fs.put(name, data)
     argv = list(case["argv"])
     stdin = b""
     if case["tool"] == "cnfshuffle":
@@ -168,8 +208,10 @@ def _run_inproc(case, pre, garbage):
             argv = ["-i", "in.cnf"] + argv
     junk = [Graph(1) for _ in range(garbage)]     # move the allocator
     sim = SimRandom(pre, max_draws=1_000_000)
-    o = clirun.run_tool(case["tool"], argv, fs, sim=sim, stdin=stdin)
+    o = clirun.run_tool(case["tool"], argv, fs, sim=sim, stdin=stdin,
+                        clock=clock)
     del junk
+    o.clock_reads = clock.reads if clock else 0
     return o, sim
 
 
@@ -181,8 +223,13 @@ def execute(case, ctx):
     if not _has_seed(case["argv"]):
         ctx.note("command line without --seed: nothing is promised")
         return
-    o1, s1 = _run_inproc(case, case["pre"][0], 0)
-    o2, s2 = _run_inproc(case, case["pre"][1], case["garbage"])
+    o1, s1 = _run_inproc(case, case["pre"][0], 0, 0)
+    o2, s2 = _run_inproc(case, case["pre"][1], case["garbage"], 1)
+    if case.get("clocks"):
+        ctx.fault("clock_and_timezone_perturbed")
+        ctx.fault("simulated_cwd_varied")
+        if o1.clock_reads or o2.clock_reads:
+            ctx.probe("the tool read the clock")
     ctx.log("inproc", case["tool"], case["argv"], o1.status, o2.status,
             len(o1.stdout), len(o2.stdout))
     ctx.shape = (case["tool"], case["argv"], case.get("input"))
@@ -217,6 +264,12 @@ def execute(case, ctx):
         kind = "unseeded-draws" if (s1.draws_before_seed or
                                     s2.draws_before_seed) else \
             ("seed-not-applied" if not s1.seed_calls else "other")
+        if kind == "other" and case.get("clocks"):
+            d = _first_diff(o1.stdout, o2.stdout)
+            if any(c in d for c in case["simcwds"]):
+                kind = "working-directory"
+            elif o1.clock_reads or o2.clock_reads:
+                kind = "clock"
         raise Violation("C07/inproc/output-differs/%s" % kind,
                         "%s\n%s\n%s" % (where, taint,
                                         _first_diff(o1.stdout, o2.stdout)))
@@ -258,29 +311,44 @@ def _exec_proc(case, ctx):
     tool = case["tool"]
     argv = list(case["argv"])
     stdin = b""
+    cwds = {"repo": REPO, "plain": os.path.join(work, "plain"),
+            "other/nested": os.path.join(work, "other", "nested"),
+            "verif": VERIF}
+    inputs = dict(case.get("files") or {})
     if tool == "cnfshuffle":
         if case["stdin"]:
             stdin = case["input"].encode()
         else:
-            path = os.path.join(work, "in-%d.cnf" % os.getpid())
-            with open(path, "w") as f:
-                f.write(case["input"])
-            argv = ["-i", path] + argv
-    cwds = {"repo": REPO, "plain": os.path.join(work, "plain"),
-            "verif": VERIF}
+            # the same relative name in both working directories
+            name = "in-%d.cnf" % os.getpid()
+            inputs[name] = case["input"]
+            argv = ["-i", name] + argv
+    written = []
+    for cw in case["cwds"]:
+        for name, data in inputs.items():
+            path = os.path.join(cwds[cw], name)
+            with open(path, "wb") as f:
+                f.write(data if isinstance(data, bytes) else data.encode())
+            written.append(path)
     outs = []
-    for hs, cw in zip(case["hashseeds"], case["cwds"]):
+    for pi, (hs, cw) in enumerate(zip(case["hashseeds"], case["cwds"])):
         env = {"PATH": os.environ.get("PATH", "/usr/bin:/bin"),
                "PYTHONPATH": REPO, "PYTHONHASHSEED": hs,
                "PYTHONDONTWRITEBYTECODE": "1", "HOME": work}
         env.update(case["env"])
+        if case.get("tzs"):
+            env["TZ"] = case["tzs"][pi]
         p = subprocess.run([sys.executable, "-W", "ignore", "-c",
                             _DRIVER % (tool, tool)] + argv,
                            input=stdin, capture_output=True, env=env,
                            cwd=cwds[cw], timeout=50)
         outs.append((p.returncode, p.stdout, p.stderr, hs, cw))
         ctx.fault("fresh_process")
+    for path in written:
+        os.unlink(path)
     ctx.fault("hashseed_varied")
+    if case.get("tzs"):
+        ctx.fault("timezones_26h_apart")
     if case["cwds"][0] != case["cwds"][1]:
         ctx.fault("cwd_varied")
     ctx.log("proc", tool, argv if tool != "cnfshuffle" else case["argv"],
@@ -391,4 +459,4 @@ def evidence_extra(agg):
 
 
 SHRINK_SKIP = {"pre", "seed", "garbage", "hashseeds", "cwds", "tool",
-               "input", "lib"}
+               "input", "lib", "clocks", "simcwds", "tzs", "files"}
